@@ -52,7 +52,7 @@ def run(tier):
   unit.run_units(R, 'vf.harness.c09', c09.SEMANTIC, pct * 2, 10.0,
                  title='converted function does not share environment with the original')
   if st.get('verdict') == 'confirmed':
-    unit.run_units(R, 'vf.harness.c09', ['directive_only_free_var'], pct, 10.0,
+    unit.run_units(R, 'vf.harness.c09', ['directive_only_free_var', 'directive_only_sorted_first'], pct, 10.0,
                    title='function whose free variable is only used by a directive',
                    setup='setup_directive_only')
   cov = {
